@@ -77,7 +77,7 @@ func main() {
 	server := certs.Issue(ca, certs.Opts{CN: "collector", IPs: []string{"127.0.0.1"}})
 	pool := x509.NewCertPool()
 	pool.AppendCertsFromPEM(ca.CertPEM)
-	total := c.Pick(96, 2400)
+	total := c.Pick(96, 6000)
 	per := total / c.NBatch
 	from, to := c.Range(per)
 	for k := from; k < to; k++ {
